@@ -162,3 +162,19 @@ func sends[T any](ch chan T) int { return 0 }
 //@ func Association.initWithOutOfBandTokens
 //@   at call Association.setSendZeroChecksum assert#zero-checksum-from-the-peer-token{C04,C13} sameSlice(arg1, remoteInit.params)
 //@   at call Association.setPeerSupportedExtensions assert#extensions-from-the-peer-token{C04,C17} true
+
+// ---- C07 / C10: what the peer is told to skip; T3 expiry ----
+
+//@ func Association.finishAcknowledgement
+//@   at store Association.advancedPeerTSNAckPoint@2 assert#only-abandoned-chunks-are-skipped{C07,C06} ok && c.abandoned() && stored == i
+//@   at store Association.advancedPeerTSNAckPoint@1 assert#never-behind-the-cumulative-ack{C07} stored == a.cumulativeTSNAckPoint
+
+//@ func Association.onRetransmissionTimeout
+//@   at store Association.advancedPeerTSNAckPoint assert#only-abandoned-chunks-are-skipped{C07,C06} ok && c.abandoned() && stored == i
+//@   at store Association.ssthresh assert#t3-halves-ssthresh{C10} id == timerT3RTX && stored == max32(a.CWND()/2, 4*a.MTU())
+//@   at call Association.setCWND assert#t3-collapses-cwnd-to-one-mtu{C10} id == timerT3RTX && arg1 == a.MTU()
+//@   at call payloadQueue.markAllToRetrasmit assert#t3-marks-everything-outstanding{C19} id == timerT3RTX
+
+//@ func Association.createForwardTSN
+//@   at mapupdate streamMap assert#only-ordered-streams-are-listed{C07} !c.unordered && key == c.streamIdentifier && stored == c.streamSequenceNumber
+//@   ensures#new-cumulative-tsn{C07} result != nil && result.newCumulativeTSN == a.advancedPeerTSNAckPoint
